@@ -172,6 +172,8 @@ class ExprMixin:
             return v.length() > 0
         if isinstance(v, VOpt):
             return z3.And(z3.Not(v.isnone), self.truth(v.some))
+        if isinstance(v, VObj) and v.cls in ("<match>", "<charclass>"):
+            return z3.BoolVal(True)  # re.Match and re.Pattern objects are always truthy
         if isinstance(v, VList):
             p = self.get_payload(v.ref, self.use_old)
             if isinstance(p, PyListP):
